@@ -76,3 +76,17 @@ Theorem C16_transparent_message : forall cm tz filter preserve m, Forall (entity
   parse_message cm tz (NyctTrips filter preserve) m = parse_message cm tz NoExt m.
 Proof. exact nycttrips_transparent. Qed.
 Print Assumptions C16_transparent_message.
+
+(* the two free positions of the NYCT trip id are CHARACTERS: how many bytes one character takes (utf8.DecodeRune's width;
+   a byte that starts no valid encoding is a character of its own), and an id with multi-byte characters there still yields
+   its origin time *)
+Example C16_rune_widths :
+  rune_len (la "a") = 1%nat /\ rune_len (la (String "194" (String "183" ""))) = 2%nat /\ rune_len (la (String "230" (String "151" (String "165" "")))) = 3%nat /\
+  rune_len (la (String "240" (String "159" (String "152" (String "128" ""))))) = 4%nat /\ rune_len (la (String "255" "a")) = 1%nat /\
+  rune_len (la (String "226" (String "130" "."))) = 1%nat /\ rune_len (la (String "192" (String "128" ""))) = 1%nat /\ rune_len (la (String "237" (String "160" (String "128" "")))) = 1%nat.
+Proof. vm_compute. repeat split. Qed.
+Example C16_multibyte_trip_id :
+  trip_id_origin ("063000_GS" ++ String "226" (String "128" (String "162" "")) ++ ".S01R") = Some 63000 /\
+  trip_id_origin ("000150_A" ++ String "194" (String "183" (String "194" (String "183" ""))) ++ "N") = Some 150 /\
+  trip_id_origin ("197778_A" ++ String "226" (String "130" "") ++ ".S01R") = None.
+Proof. vm_compute. repeat split. Qed.
